@@ -143,7 +143,14 @@ impl ProgGen {
                     if wrap == Wrap::None && t.chance(1, 12) {
                         wrap = Wrap::Paren; // `(e)` offered to a bare slot
                     }
-                    Self::canon(self.operand_expr(t, *ty, names, info, cur_global))
+                    // a symbol that happens to be named like one of the rule's parameters
+                    let shadow: Vec<&String> = names.globals.iter().filter(|g| r.ops.iter().any(|o| matches!(&o.op, POp::Param { name, .. } if name == *g))).collect();
+                    if !shadow.is_empty() && t.chance(1, 2) {
+                        info.symbol_operands += 1;
+                        Self::canon(E::Var(shadow[t.below(shadow.len())].clone()))
+                    } else {
+                        Self::canon(self.operand_expr(t, *ty, names, info, cur_global))
+                    }
                 }
             };
             ops.push(InsOp { wrap, op });
@@ -162,6 +169,11 @@ impl ProgGen {
         let gstart = t.below(GLOBALS.len());
         for i in 0..n_glob {
             names.globals.push(GLOBALS[(gstart + i) % GLOBALS.len()].to_string());
+        }
+        if n_glob > 0 && t.chance(1, 6) {
+            // deliberate overlap: a global label named like a rule parameter
+            let k = t.below(n_glob);
+            names.globals[k] = t.pick(&["p0", "p1"]).to_string();
         }
         let n_const = t.weighted(&[3, 3, 2, 1]);
         for i in 0..n_const {
